@@ -395,6 +395,72 @@ Definition nofail : list bool := [].
 Definition single (k : nat) : list bool := repeat false k ++ [true].
 
 (* ====================================================================== *)
+(* the encoder's string-table elements (wbxml_encoder.c): who owns the buffer                                   *)
+(*   wbxml_strtbl_element_create / _destroy, wbxml_strtbl_add_element, wbxml_encode_tag_literal /                *)
+(*   wbxml_encode_attr_start_literal (defect D23), the public-id part of wbxml_fill_header (defect D22).         *)
+(* An element with stat = FALSE OWNS its string buffer: destroying the element destroys the buffer.             *)
+Record selt := mkSelt { se_blk : N; se_string : buffer; se_stat : bool }.
+
+Definition selt_create (h : heap) (b : buffer) (stat : bool) : heap * option selt :=
+  let '(h1, p) := alloc h in
+  match p with None => (h1, None) | Some e => (h1, Some (mkSelt e b stat)) end.
+Definition selt_destroy (h : heap) (e : option selt) : heap :=
+  match e with
+  | None => h
+  | Some e => let h0 := use h (Some (se_blk e)) in
+              free (if se_stat e then h0 else buffer_destroy h0 (Some (se_string e))) (Some (se_blk e))
+  end.
+
+(* wbxml_strtbl_add_element(encoder, elt, &index, &added): a NULL list is refused; a string that is already in the
+   table is reported with added = FALSE (the caller keeps the element); else the element is appended *)
+Definition strtbl_add (h : heap) (tbl : option (wlist selt)) (e : selt) (already : bool)
+    : heap * option (wlist selt) * bool * bool :=
+  match tbl with
+  | None => (h, None, false, false)
+  | Some l => if already then (use h (Some (l_blk l)), tbl, true, false)
+              else let '(h1, l', ok) := list_append h l e in (h1, Some l', ok, ok)
+  end.
+
+(* wbxml_encode_tag_literal / wbxml_encode_attr_start_literal.  old = the code before /repo a4c55c1:
+     if (buff == NULL || elt == NULL || !add) { wbxml_strtbl_element_destroy(elt); wbxml_buffer_destroy(buff); return error; } *)
+Definition encode_literal (old : bool) (h : heap) (tbl : option (wlist selt)) (already : bool)
+    : heap * option (wlist selt) * status :=
+  let '(h1, b) := buffer_create h true in
+  match b with
+  | None => (h1, tbl, ERR)
+  | Some b =>
+    let '(h2, e) := selt_create h1 b false in
+    match e with
+    | None => (buffer_destroy h2 (Some b), tbl, ERR)
+    | Some e =>
+      let '(h3, tbl', ok, added) := strtbl_add h2 tbl e already in
+      if ok then (if added then h3 else selt_destroy h3 (Some e), tbl', OK)
+      else (let h4 := selt_destroy h3 (Some e) in if old then buffer_destroy h4 (Some b) else h4, tbl', ERR)
+    end
+  end.
+
+(* the public-id part of wbxml_fill_header.  old = the code before /repo dabbfe5: `pid` is destroyed again after the
+   element that owns it (failure branch, and `if (pid && !added) wbxml_buffer_destroy(pid)` at the end) *)
+Definition fill_header_pid (old : bool) (h : heap) (tbl : option (wlist selt)) (already : bool)
+    : heap * option (wlist selt) * status :=
+  let '(h1, pid) := buffer_create h true in
+  match pid with
+  | None => (h1, tbl, ERR)
+  | Some pid =>
+    let '(h2, e) := selt_create h1 pid false in
+    match e with
+    | None => (buffer_destroy h2 (Some pid), tbl, ERR)
+    | Some e =>
+      let '(h3, tbl', ok, added) := strtbl_add h2 tbl e already in
+      if ok then
+        let h4 := if added then h3 else selt_destroy h3 (Some e) in
+        (* ... header bytes are appended ...; at the end: if (pid && !added) wbxml_buffer_destroy(pid) *)
+        (if old && negb added then buffer_destroy h4 (Some pid) else h4, tbl', OK)
+      else (let h4 := selt_destroy h3 (Some e) in if old then buffer_destroy h4 (Some pid) else h4, tbl', ERR)
+    end
+  end.
+
+(* ====================================================================== *)
 (* trace checker for the alloc / free / realloc traces recorded by harness/c16_harness.c *)
 Inductive ev := EA (b : N) | EF (b : N) | ER (old new : N) | EX.     (* ER 0 n = realloc(NULL); EX = a refused request *)
 
